@@ -178,6 +178,24 @@ def api_level(ctx, by_cfg):
                               "%s[%s]: 20 calls of directive.Run on the same input gave %d different outputs" % (b.cfg.id, rel, len(outs)),
                               {"cfg": b.cfg.id, "file": rel})
             alone_out[rel] = ("OK", outs[0])
+        # (b') the text the real build produced for a file in its own process (tap after directive.Run, thousands of files in
+        # one process) vs the text produced alone in a fresh process. Files with exec/stack directives are left out: what those
+        # read from the build directory is, legitimately, in another state while the build is under way than afterwards
+        expanded = os.path.join(b.tap, "expanded", "apparmor.d")
+        n_cmp = 0
+        for rel, text in files:
+            if rel.startswith("verif-gen-") or "#aa:exec" in text or "#aa:stack" in text or alone_out.get(rel, ("", ""))[0] != "OK":
+                continue
+            p_exp = os.path.join(expanded, rel)
+            if not os.path.exists(p_exp):
+                continue
+            n_cmp += 1
+            ctx.case(digest(b.cfg.id, "in-build", rel))
+            if matrix.read(p_exp) != alone_out[rel][1]:
+                ctx.violation("C02/carried-state/in-build/%s" % rel,
+                              "%s: the text the full build produced for %s differs from the text produced for the same input alone in a fresh process" % (b.cfg.id, rel),
+                              {"cfg": b.cfg.id, "file": rel})
+        ctx.extra["in_build_vs_alone"] = ctx.extra.get("in_build_vs_alone", 0) + n_cmp
         # self-test: the monitor must see a non-deterministic directive
         st = worker.run_batch(ctx, "prebuild", [req("verif-selftest", "profile x {\n  #aa:verifrand\n  include if exists <local/x>\n}\n", repeat=20)],
                               extra_env=envx)[0]
